@@ -664,8 +664,14 @@ def rule_range(ctx):
                 why = f'the search stops under `{norm(t)}`, not as soon as the window starts with matching hashes'
                 if nv is not None:
                     nd = d_.get(nv, [])
-                    from_diff = len(nd) == 1 and isinstance(nd[0][1], ast.Call) and isinstance(nd[0][1].func, ast.Name) \
-                        and any(g_.name == nd[0][1].func.id and g_.parent is f for g_ in ctx.repo.funcs.values())
+                    # the helper is recognised by what it does (index of the first pair of a zip that differs, else the
+                    # length), wherever it lives: closure, static method, module function
+                    from_diff = False
+                    if len(nd) == 1 and isinstance(nd[0][1], ast.Call):
+                        tgt = ctx.res.resolve_ref(nd[0][1].func, f)
+                        if tgt is None and isinstance(nd[0][1].func, ast.Name):
+                            tgt = next((g_ for g_ in ctx.repo.funcs.values() if g_.name == nd[0][1].func.id and g_.parent is f), None)
+                        from_diff = tgt is not None and hasattr(tgt, 'node') and _is_first_difference(tgt)
                     moved = [a for a in conds[0][2].body if isinstance(a, ast.AugAssign) and isinstance(a.op, ast.Add)
                              and norm(a.target) == sv and norm(a.value) == nv]
                     ok = from_diff and len(moved) == 1
@@ -728,10 +734,37 @@ def rule_reorg_flush(ctx, rule='C03.REORGFLUSH'):
     return 1
 
 
+def _is_first_difference(g):
+    """for n, (a, b) in enumerate(zip(X, Y)): if a != b: return n   ...   return len(<one of them / the enclosing list>)"""
+    loops = [s_ for s_ in g.node.body if isinstance(s_, ast.For)]
+    if len(loops) != 1:
+        return False
+    lp = loops[0]
+    it = lp.iter
+    if not (isinstance(it, ast.Call) and norm(it.func) == 'enumerate' and len(it.args) == 1 and isinstance(it.args[0], ast.Call)
+            and norm(it.args[0].func) == 'zip' and len(it.args[0].args) == 2 and isinstance(lp.target, ast.Tuple) and len(lp.target.elts) == 2
+            and isinstance(lp.target.elts[0], ast.Name) and isinstance(lp.target.elts[1], ast.Tuple) and len(lp.target.elts[1].elts) == 2):
+        return False
+    idx = lp.target.elts[0].id
+    a, b = [norm(e) for e in lp.target.elts[1].elts]
+    rets = [r for r in walk_own(lp) if isinstance(r, ast.Return)]
+    if len(rets) != 1 or norm(rets[0].value) != idx:
+        return False
+    conds = pr.control_conditions(rets[0], lp)
+    if len(conds) != 1 or not conds[0][1] or not isinstance(conds[0][0], ast.Compare) or not isinstance(conds[0][0].ops[0], ast.NotEq) \
+            or {norm(conds[0][0].left), norm(conds[0][0].comparators[0])} != {a, b}:
+        return False
+    if any(isinstance(x, (ast.Break, ast.Continue)) for x in walk_own(lp)):
+        return False
+    tail = [r for r in g.node.body if isinstance(r, ast.Return)]
+    return len(tail) == 1 and isinstance(tail[0].value, ast.Call) and norm(tail[0].value.func) == 'len'
+
+
 def rule_heights(ctx):
     '''(height, hash) pairs given to the prefetcher attach start + i to the i-th hash of the ascending list.'''
     n = 0
     pm = ctx.func('bp', 'OnDiskBlock.prefetch_many')
+    rh = ctx.func('bp', 'BlockProcessor._reorg_hashes')
     for qual in ('BlockProcessor.reorg_chain', 'BlockProcessor.next_block_hashes'):
         f = ctx.func('bp', qual)
         d = df.defs(f)
@@ -763,7 +796,7 @@ def rule_heights(ctx):
                         r = rhs.value if isinstance(rhs, ast.Await) else rhs
                         if isinstance(st, ast.Assign) and isinstance(st.targets[0], ast.Tuple) and isinstance(r, ast.Call):
                             names = [norm(x) for x in st.targets[0].elts]
-                            if names == [norm(start), hs.id] and q.callee_name(ctx, f, r) == 'self._reorg_hashes':
+                            if names == [norm(start), hs.id] and ctx.res.resolve_ref(r.func, f) is rh:
                                 good = True
                         elif isinstance(r, ast.Call) and q.callee_name(ctx, f, r) == 'self.daemon.block_hex_hashes' \
                                 and r.args and norm(r.args[0]) == norm(start):
